@@ -30,6 +30,8 @@ pub fn exec_oracle(kind: &str, fields: &[&str]) -> String {
         "S_C08D" => oracle_c08d(fields),
         "S_C09" => oracle_c09(fields),
         "S_C13" => oracle_c13(fields),
+        "S_C01" => oracle_c01(fields),
+        "S_C01D" => oracle_c01d(fields),
         "S_C10" => oracle_c10(fields),
         "S_C10P" => oracle_c10p(fields),
         "S_C10W" => oracle_c10w(fields),
@@ -2424,4 +2426,108 @@ fn oracle_c10w(fields: &[&str]) -> String {
         }
         Err(m) => format!("oracle FAIL {m}"),
     }
+}
+
+/// distance on the ground between two operands of the given kind
+fn ground_distance(space: &str, a: &Coor4D, b: &Coor4D) -> f64 {
+    let r = 6.4e6;
+    match space {
+        "geo" | "geo3" => {
+            let dlat = (a[1] - b[1]).abs() * r;
+            let mut dl = (a[0] - b[0]).abs() % std::f64::consts::TAU;
+            if dl > std::f64::consts::PI {
+                dl = std::f64::consts::TAU - dl;
+            }
+            let dlon = dl * r * a[1].cos().abs().max(1e-9).min(1.0);
+            let dh = if space == "geo3" { (a[2] - b[2]).abs() } else { 0.0 };
+            dlat.max(dlon).max(dh)
+        }
+        "deg" => {
+            let dlat = (a[0] - b[0]).abs().to_radians() * r;
+            let mut dl = (a[1] - b[1]).abs() % 360.0;
+            if dl > 180.0 {
+                dl = 360.0 - dl;
+            }
+            dlat.max(dl.to_radians() * r * a[0].to_radians().cos().abs()).max((a[2] - b[2]).abs())
+        }
+        "geodesic" => {
+            // (lat, lon, azimuth, distance) in degrees and metres
+            let dlat = (a[0] - b[0]).abs().to_radians() * r;
+            let dlon = (a[1] - b[1]).abs().to_radians() * r * a[0].to_radians().cos().abs();
+            let mut da = (a[2] - b[2]).abs() % 360.0;
+            if da > 180.0 {
+                da = 360.0 - da;
+            }
+            dlat.max(dlon).max(da.to_radians() * a[3].abs().min(r)).max((a[3] - b[3]).abs())
+        }
+        _ => (0..3).map(|i| (a[i] - b[i]).abs()).fold(0.0, f64::max),
+    }
+}
+
+/// forward then inverse (or inverse then forward) returns the original
+fn oracle_c01(fields: &[&str]) -> String {
+    let kind = fields[0];
+    let def = unescape(fields[1]);
+    let first_fwd = fields[2] == "F";
+    let space = fields[3];
+    let tol: f64 = fields[4].parse().unwrap_or(0.0);
+    let pts = parse_data(fields[5]);
+    let (n1, mid) = match run_kind(kind, &def, first_fwd, &pts) {
+        Ok(v) => v,
+        Err(m) => return format!("oracle FAIL {m}"),
+    };
+    let (n2, back) = match run_kind(kind, &def, !first_fwd, &mid) {
+        Ok(v) => v,
+        Err(m) => return format!("oracle FAIL {m}"),
+    };
+    if n1 != pts.len() || n2 != pts.len() {
+        return format!("oracle FAIL {def}: {} tuples of the domain, {n1} transformed {} and {n2} back", pts.len(), if first_fwd { "forward" } else { "inverse" });
+    }
+    for (i, (p, q)) in pts.iter().zip(back.iter()).enumerate() {
+        if space == "exact" {
+            // permutations, sign changes: bit for bit; unit changes and translations: to the last place
+            for j in 0..4 {
+                let ok = p[j].to_bits() == q[j].to_bits() || (p[j] - q[j]).abs() <= 4.0 * f64::EPSILON * p[j].abs().max(1.0);
+                if !ok {
+                    return format!("oracle FAIL {def} {}: element {j} of tuple {i} comes back as {} instead of {}", if first_fwd { "forward then inverse" } else { "inverse then forward" }, q[j], p[j]);
+                }
+            }
+            continue;
+        }
+        let d = ground_distance(space, p, q);
+        if !(d <= tol) {
+            return format!(
+                "oracle FAIL {def} {}: ({}, {}, {}) comes back as ({}, {}, {}), {:.3e} m away (allowed {:.1e})",
+                if first_fwd { "forward then inverse" } else { "inverse then forward" }, p[0], p[1], p[2], q[0], q[1], q[2], d, tol
+            );
+        }
+        if p[3].to_bits() != q[3].to_bits() && space != "geodesic" && (p[3] - q[3]).abs() > 1e-9 {
+            return format!("oracle FAIL {def}: the time element came back changed ({} -> {})", p[3], q[3]);
+        }
+    }
+    "oracle pass".to_string()
+}
+
+/// deformation works on cartesian coordinates: geographic -> cartesian, forward, inverse, compare
+fn oracle_c01d(fields: &[&str]) -> String {
+    let def = unescape(fields[0]);
+    let pts = parse_data(fields[1]);
+    let cart: Vec<Coor4D> = pts.iter().map(|p| Ellipsoid::default().cartesian(p)).collect();
+    for first_fwd in [true, false] {
+        let Ok((n1, mid)) = run_kind("plain", &def, first_fwd, &cart) else { return format!("oracle FAIL {def} not instantiable") };
+        let Ok((n2, back)) = run_kind("plain", &def, !first_fwd, &mid) else { return format!("oracle FAIL {def} not instantiable") };
+        if n1 != cart.len() || n2 != cart.len() {
+            return format!("oracle FAIL {def}: inside the coverage but {n1} / {n2} of {} transformed", cart.len());
+        }
+        for (p, q) in cart.iter().zip(back.iter()) {
+            let d = (0..3).map(|i| (p[i] - q[i]).abs()).fold(0.0, f64::max);
+            if !(d <= 5e-6) {
+                return format!("oracle FAIL {def}: ({}, {}, {}) comes back {:.3e} m away", p[0], p[1], p[2], d);
+            }
+        }
+        if mid.iter().zip(cart.iter()).all(|(a, b)| same_bits(a, b)) {
+            return format!("oracle FAIL {def}: the deformation moved nothing inside the coverage");
+        }
+    }
+    "oracle pass".to_string()
 }
